@@ -6,8 +6,9 @@ Property theorems only (helper lemmas: `Lemmas/Uf2.lean`; model and reader: `Mod
 
 Setting of the history theorems: a writer created by `new` (fixed buffer of `cap` bytes) or `new_vec`
 (vector already holding `pre` bytes) — `Start` — followed by any sequence `ops` of `write` /
-`write_all` calls with 32-bit addresses, none of which panics (`NoPanic`; `no_panic` shows that the
-only panic of the model is `count += 1` in `write` after 2^32 − 1 blocks, i.e. after 2 TiB of output).
+`write_all` calls with 32-bit addresses. No such history panics (`no_panic`, `no_panic_history`): since
+/repo 13f4488 `write` rejects with `BlockCount{need: 1, have: 0}` once 2^32 − 1 blocks have been written,
+so the unchecked `self.count += 1` of `encode` cannot overflow any more.
 `finish` is `Drop`. `read` is the independent reader: it returns `some` only for a whole number of
 512-byte blocks that each carry the three magic numbers and a payload size ≤ 476.
 -/
@@ -55,7 +56,7 @@ theorem Start.inv {st : St} (h : Start st) : Inv st ∧ st.out = [] ∧ st.count
 512-byte blocks (one per appended block), the independent reader decodes it (so every block carries the
 three magic numbers), block `k` is numbered `k` (from 0), carries the total block count, the family id (or
 0) and exactly the flags "family id present" (0x2000, iff configured) and "not main flash" (1). -/
-theorem wellformed (st0 : St) (h0 : Start st0) (ops : List Op) (ha : Addr32 ops) (hnp : NoPanic st0 ops) :
+theorem wellformed (st0 : St) (h0 : Start st0) (ops : List Op) (ha : Addr32 ops) :
     ∃ out bs, finish (run st0 ops).1 = .ok out ∧ out.length = 512 * (run st0 ops).1.count ∧
       read out = some bs ∧ bs.length = (run st0 ops).1.count ∧
       ∀ k (hk : k < bs.length), bs[k].blockNo = k ∧ bs[k].numBlocks = bs.length ∧
@@ -64,7 +65,7 @@ theorem wellformed (st0 : St) (h0 : Start st0) (ops : List Op) (ha : Addr32 ops)
          bs[k].flags = 1 + (if st0.cfg.fam.isSome then 8192 else 0)) ∧
         bs[k].psize ≤ 476 := by
   obtain ⟨hI0, hout0, hcnt0⟩ := h0.inv
-  obtain ⟨hI, hE⟩ := run_spec ops st0 hI0 ha hnp
+  obtain ⟨hI, hE, _⟩ := run_spec ops st0 hI0 ha
   have hout : (run st0 ops).1.out = encAll (run st0 ops).1.cfg 0 (runBlks st0 ops).flatten := by
     rw [hE.out, hout0, hE.cfg]; rfl
   have hlen : (runBlks st0 ops).flatten.length = (run st0 ops).1.count := by rw [hE.count, hcnt0]; omega
@@ -84,13 +85,13 @@ into the concatenation of one block list per operation, and the image of the blo
 the block followed by zeros up to the payload size, at its address; for an accepted `write_all`, the data
 followed by zeros up to the next multiple of the alignment; no address at all for a rejected or empty
 operation (`opImage`). -/
-theorem reconstructs (st0 : St) (h0 : Start st0) (ops : List Op) (ha : Addr32 ops) (hnp : NoPanic st0 ops) :
+theorem reconstructs (st0 : St) (h0 : Start st0) (ops : List Op) (ha : Addr32 ops) :
     ∃ (out : List UInt8) (per : List (List Block)), finish (run st0 ops).1 = .ok out ∧ read out = some per.flatten ∧
       per.length = ops.length ∧
       ∀ i (h1 : i < per.length) (h2 : i < ops.length) (h3 : i < (run st0 ops).2.length) (x : Nat),
         image per[i] x = opImage st0.cfg ops[i] ((run st0 ops).2[i]) x := by
   obtain ⟨hI0, hout0, hcnt0⟩ := h0.inv
-  obtain ⟨hI, hE⟩ := run_spec ops st0 hI0 ha hnp
+  obtain ⟨hI, hE, _⟩ := run_spec ops st0 hI0 ha
   have hout : (run st0 ops).1.out = encAll (run st0 ops).1.cfg 0 (runBlks st0 ops).flatten := by
     rw [hE.out, hout0, hE.cfg]; rfl
   have hlen : (runBlks st0 ops).flatten.length = (run st0 ops).1.count := by rw [hE.count, hcnt0]; omega
@@ -100,7 +101,7 @@ theorem reconstructs (st0 : St) (h0 : Start st0) (ops : List Op) (ha : Addr32 op
   · simp [runBlks_length]
   · intro i h1 h2 h3 x
     simp only [List.getElem_map]
-    exact runBlks_image ops st0 hI0 ha hnp i (by simpa using h1) h2 h3 _ x
+    exact runBlks_image ops st0 hI0 ha i (by simpa using h1) h2 h3 _ x
 
 /-- C16.c'  **No address twice.** The address ranges `[target, target + payload size)` of the blocks that one
 operation appends are pairwise disjoint (a `write` appends at most one block; the blocks of a `write_all`
@@ -121,20 +122,31 @@ theorem no_dup_addr (st : St) (hI : Inv st) (op : Op) :
 
 /-- C16.d  **Rejections of `write`.** From any reachable state (`Inv`), `write` returns an error exactly when
 the block is non-empty and (its length is not a multiple of the alignment, or it is longer than the payload
-size, or the destination has no room for 512 more bytes); then the state — in particular the output — is
+size, or 2^32 − 1 blocks have already been written, or the destination has no room for 512 more bytes); then the state — in particular the output — is
 unchanged, so no block is appended. -/
 theorem rejects_write (st : St) (hI : Inv st) (addr : Nat) (ha : addr < 4294967296) (block : List UInt8) (nf : Bool) :
     WriteRejects st block ↔ ∃ e, write st addr block nf = (st, .err e) := by
-  rcases write_spec st hI addr ha block nf with ⟨st', h, _, _, hnr⟩ | ⟨e, h, hr⟩ | ⟨st', s, h, _, hnr⟩
+  rcases write_spec st hI addr ha block nf with ⟨st', h, _, _, hnr⟩ | ⟨e, h, hr⟩
   · exact ⟨fun hr => absurd hr hnr, fun ⟨e, he⟩ => by rw [h] at he; cases he⟩
   · exact ⟨fun _ => ⟨e, h⟩, fun _ => hr⟩
-  · exact ⟨fun hr => absurd hr hnr, fun ⟨e, he⟩ => by rw [h] at he; cases he⟩
 
 /-- C16.d'  a single block longer than the payload size is rejected, not truncated (F20) -/
 theorem rejects_long_block (st : St) (hI : Inv st) (addr : Nat) (ha : addr < 4294967296) (block : List UInt8)
     (nf : Bool) (h : block.length > st.cfg.ps) : ∃ e, write st addr block nf = (st, .err e) :=
   (rejects_write st hI addr ha block nf).mp
     ⟨by intro hb; subst hb; simp at h, .inr (.inl h)⟩
+
+/-- C16.d''  the block counter is checked by `write` as well (/repo 13f4488): once 2^32 − 1 blocks have been
+written a non-empty, aligned, not over-long block is rejected with `BlockCount{need: 1, have: 0}` (before the
+capacity check), instead of overflowing `self.count += 1`. -/
+theorem rejects_write_count (st : St) (addr : Nat) (block : List UInt8) (nf : Bool)
+    (hb : block ≠ []) (hal : st.cfg.al ≠ 0) (h1 : block.length % st.cfg.al = 0) (h2 : block.length ≤ st.cfg.ps)
+    (hc : st.count = 4294967295) : write st addr block nf = (st, .err (.blockCount 1 0)) := by
+  unfold write
+  have hemp : block.isEmpty = false := by simpa using hb
+  rw [hemp]
+  simp only [Bool.false_eq_true, if_false]
+  rw [if_neg hal, if_neg (by omega), if_neg (by omega), if_pos hc]
 
 /-- C16.e  **Rejections of `write_all`.** It returns an error exactly when the data is non-empty and
 (rounding the length up to the alignment overflows `usize`, or the padded data does not fit below 2^32, or
@@ -147,25 +159,21 @@ theorem rejects_writeAll (st : St) (hI : Inv st) (addr : Nat) (ha : addr < 42949
   · exact ⟨⟨fun hr => absurd hr hnr, fun ⟨e, he⟩ => by rw [h] at he; cases he⟩, fun _ => ⟨st', h⟩⟩
   · exact ⟨⟨fun _ => ⟨e, h⟩, fun _ => hr⟩, fun hn => absurd hr hn⟩
 
-/-- C16.f  **No panic.** `write_all` never panics from a reachable state; `write` panics only through the
-unchecked `self.count += 1` when 2^32 − 1 blocks have already been written. -/
-theorem no_panic (st : St) (hI : Inv st) (op : Op) (ha : op.addr < 4294967296) (hc : st.count < 4294967295) :
+/-- C16.f  **No panic.** Neither `write` nor `write_all` panics from any reachable state (`Inv`; in
+particular with the block counter at its maximum 2^32 − 1). -/
+theorem no_panic (st : St) (hI : Inv st) (op : Op) (ha : op.addr < 4294967296) :
     ∀ s, (step st op).2 ≠ .panic s := by
   intro s
-  cases op with
-  | write a d nf =>
-    rcases write_spec st hI a ha d nf with ⟨st', h, _⟩ | ⟨e, h, _⟩ | ⟨st', s', h, hcnt, _⟩
-    · simp [step, h]
-    · simp [step, h]
-    · omega
-  | writeAll a d nf =>
-    rcases writeAll_spec st hI a ha d nf with ⟨st', h, _⟩ | ⟨e, h, _⟩
-    · simp [step, h]
-    · simp [step, h]
+  rcases (step_spec st hI op ha).2.2 with ⟨n, h⟩ | ⟨⟨e, h⟩, _⟩ <;> rw [h] <;> simp
 
-/-- every state reached from `Start` by non-panicking operations satisfies the invariant used above -/
-theorem reachable_inv (st0 : St) (h0 : Start st0) (ops : List Op) (ha : Addr32 ops) (hnp : NoPanic st0 ops) :
-    Inv (run st0 ops).1 := (run_spec ops st0 h0.inv.1 ha hnp).1
+/-- C16.f'  **No panic, for every history**: no sequence of `write` / `write_all` calls (32-bit addresses) on
+a freshly constructed writer panics, and neither does the final `Drop` (`wellformed`: `finish … = .ok _`). -/
+theorem no_panic_history (st0 : St) (h0 : Start st0) (ops : List Op) (ha : Addr32 ops) : NoPanic st0 ops :=
+  (run_spec ops st0 h0.inv.1 ha).2.2
+
+/-- every state reached from `Start` satisfies the invariant used above -/
+theorem reachable_inv (st0 : St) (h0 : Start st0) (ops : List Op) (ha : Addr32 ops) :
+    Inv (run st0 ops).1 := (run_spec ops st0 h0.inv.1 ha).1
 
 /-! ### non-vacuity -/
 
@@ -175,6 +183,11 @@ example : ∃ st0, new (some 0xE48BFF56) 8 4 2048 = .ok st0 ∧
   exact ⟨_, rfl, rfl⟩
 example : WriteRejects ⟨⟨8, 4, none⟩, [], 0, 0, 1024, false⟩ [1, 2, 3] := by
   refine ⟨by simp, .inl (by decide)⟩
+/-- a state satisfying `Inv` whose counter is at the maximum exists as far as `no_panic` is concerned: the
+hypothesis `Inv` does not bound the counter below 2^32 − 1, and `write` then answers `BlockCount` -/
+example : write ⟨⟨8, 4, none⟩, [], 0, 4294967295, 1024, false⟩ 0 [1, 2, 3, 4] false =
+    (⟨⟨8, 4, none⟩, [], 0, 4294967295, 1024, false⟩, .err (.blockCount 1 0)) := by
+  exact rejects_write_count _ _ _ _ (by simp) (by decide) (by decide) (by decide) rfl
 example : checkCfg 256 256 = .ok () ∧ checkCfg 0 1 = .error (.blockSize 0) ∧ checkCfg 8 3 = .error (.alignment 3 8) :=
   ⟨rfl, rfl, rfl⟩
 
